@@ -232,7 +232,8 @@ register(
                      "canonical output; non-trivial = script places the counter, has callback behaviours and >=3 calls", nontrivial=nt_wrap)],
 )
 
-import reg_q as _rq  # noqa: E402
+import reg_q as _rq
+import reg_c09 as _c09  # noqa: E402
 
 
 def nt_qcopy(feat, script, out):
@@ -274,11 +275,13 @@ register(
                      nontrivial=nt_c08),
             cl_suite("copy", 150, 4000, nontrivial=nt_copy),
             _rq.q_suite("queue", 200, 5000, [_rq.V("single", 0, 0, 0, 0), _rq.V("multi", 1, 1, 1, 0)],
-                        [_rq.V("single", 0, 0, 0, 0), _rq.V("multi", 1, 1, 1, 0), _rq.V("spin", 0, 1, 0, 1)], nontrivial=_rq.nt_queue)],
+                        [_rq.V("single", 0, 0, 0, 0), _rq.V("multi", 1, 1, 1, 0), _rq.V("spin", 0, 1, 0, 1)], nontrivial=_rq.nt_queue),
+            # "... and exceptions": the fault enumeration of C09, judged by the object ledger only
+            lambda ctx, search=False: _c09.fault_suite(ctx, search, only="ledger", nq=6, nt=60)],
     level_text="Lean theorems: on the pointer model, with no traversal running exactly the live chain is reachable from head/tail (live nodes point only to live nodes), a removed node is "
                "unreachable, moved-from / cleared objects retain nothing, clones retain exactly their fresh nodes (Properties/C08); on the queue model every slot is in exactly one list, "
                "occupied iff it holds an event, set only on empty and cleared only on occupied slots, every event consumed exactly once (C08q, C05); AnyData ledger invariant (C17). "
                "Correspondence: ledger-counted callbacks and payloads compared with the models after every command, ASan/LSan.",
-    level_note="shared_ptr reference counting is trusted to release exactly the unreachable acyclic garbage; that removed nodes never form cycles is argued in DESIGN (edges between removed nodes follow removal time) and watched by LeakSanitizer, not proved; exceptions are C09",
+    level_note="shared_ptr reference counting is trusted to release exactly the unreachable acyclic garbage; that removed nodes never form cycles is argued in DESIGN (edges between removed nodes follow removal time) and watched by LeakSanitizer, not proved; the exception clause is exercised by the fault enumeration of C09 judged by the ledger (its theorems are C09's)",
     design_ref="5.8",
 )
